@@ -33,7 +33,7 @@ PROPS = {
 
 for _pid, _q, _t in (("C02", 2500, 4000), ("C03", 2500, 4000), ("C04", 2500, 4000), ("C05", 2500, 4000)):
     PROPS[_pid]["jobs"].append({"pkg": "conc", "run": "^Test%sConc$" % _pid, "checks_quick": _q, "checks_thorough": 4 * _t, "shards_thorough": 8})
-for _pid in ("C02", "C03"):
+for _pid in ("C01", "C02", "C03", "C05"):
     PROPS[_pid]["jobs"].append({"pkg": "conc", "run": "^Test%sMulti$" % _pid, "checks_quick": 2500, "checks_thorough": 16000, "shards_thorough": 8})
 
 PROPS["C20"] = {"jobs": [{"pkg": "keys", "run": "^TestC20$", "checks_quick": 1500, "checks_thorough": 8000, "shards_thorough": 16}]}
